@@ -75,6 +75,7 @@ type verifCronOpts struct {
 	unsetMax    bool // also explore maxMissedSchedules unset (default 5)
 	mayEnd      bool // an expression may have no further match (zero time)
 	sameName    bool // the second JobConfig may share its name with the first, in another namespace
+	warm        bool // the heap entries were produced by the real Bump (whatever Bump remembers is in place)
 }
 
 func verifSetupCron(o verifCronOpts) *verifCronEnv {
@@ -207,6 +208,19 @@ func verifSetupCron(o verifCronOpts) *verifCronEnv {
 	}
 	env.worker = &CronWorker{Context: ctx, handler: env.rec}
 	env.worker.schedule = cronschedule.VerifNewSchedule(items, ctx.Configs(), Clock)
+	if o.warm {
+		// An entry of the heap got there through Schedule.Bump in some earlier pass:
+		// replay that call (from `last` it reproduces the pending time, by the seeded
+		// contract) so that any state Bump keeps besides the heap is in place as well.
+		for _, v := range env.jcs {
+			if v.inHeap {
+				n, err := env.worker.schedule.Bump(v.jc, v.last)
+				vz.Assert(err == nil && n.Equal(v.prio), "C03/setup/warm-bump-reproduces-the-pending-time")
+				p, ok := env.worker.schedule.VerifSearch(v.key)
+				vz.Assert(ok && p == int(v.prio.Unix()), "C03/setup/warm-bump-reproduces-the-pending-time")
+			}
+		}
+	}
 	return env
 }
 
